@@ -93,3 +93,16 @@ func hostPortRules(p string) []Rule {
 		}},
 	}
 }
+
+// subtractMaxRows: the headroom left to a NodePool after a NodeClaim was planned keeps exactly the keys of the limits it
+// was computed from, each reduced by the worst case (per-resource maximum of the instance types' Capacity). C03 needs it
+// for the limit itself; C19 because a key that is not a limit (negative "remaining memory" of a pool that only limits
+// cpu) makes filterByRemainingResources reject every instance type, so pods silently fall to a lower-weight NodePool.
+func subtractMaxRows(w *core.World, id string) []core.Result {
+			const sm = "sched.subtractMax"
+			rs := core.InstrPresent(w, id, "PROV", sm, `^store &local<\[1\]corev1\.ResourceList>\[0\] = \$1\[.*\]\.Capacity$`, 1, "each instance type contributes its Capacity")
+			rs = append(rs, core.InstrPresent(w, id, "PROV", sm, `^call utils/resources\.MaxResources\(phi\(nil\|append\(phi↺, …\[:\]\)\)\)$`, 1, "the worst case over all instance types is taken")...)
+			rs = append(rs, core.InstrPresent(w, id, "PROV", sm, `^call \(\*apim/api/resource\.Quantity\)\.Sub\(\(apim/api/resource\.Quantity\)\.DeepCopy\(next\(range\(…\)\)#2\), utils/resources\.MaxResources\(phi\(…\)\)\[next\(range\(\$0\)\)#1\]\)$`, 1, "and subtracted from each remaining resource")...)
+			rs = append(rs, core.InstrPresent(w, id, "PROV", sm, `^mapupdate makemap<corev1\.ResourceList>\[next\(range\(\$0\)\)#1\] = \(apim/api/resource\.Quantity\)\.DeepCopy\(next\(range\(\$0\)\)#2\)$`, 1, "the result keeps every key of the remaining list")...)
+			return rs
+}
